@@ -121,11 +121,18 @@ G_C16_CodesTruthful(c, ph, nd, p, o) ==
   /\ o.resp = "rap" => p.k = "chan"
   /\ o.resp # "none" => RespType(p.k) # 0
 
+\* C16: each kind of refusal is reported by its own MS-TSGU status code (implied by the C17 / C02 / C03 guards above;
+\* stated again so that a wrong code is reported against C16 as well)
+G_C16_PinnedCodes(c, ph, nd, p, o) ==
+  /\ (p.k = "hs" /\ ph = "init" /\ Valid(p) /\ ~Match(SCaps(c), p.caps)) => o.resp = "mismatch"
+  /\ (p.k = "create" /\ ph = "hs" /\ c.tokenAuth /\ ~p.cookieGood) => o.resp = "cookie"
+  /\ (p.k = "chan" /\ ph = "authorized" /\ Valid(p) /\ p.hostAllowed = "no") => o.resp = "rap"
+
 GuardNames == {"G_C01_SuccessInOrder", "G_C01_DialGate", "G_C01_FwdGate", "G_C01_OutOfOrderEnds",
   "G_C01_ErrorEnds", "G_C01_SilentAfterEnd", "G_C01_NoReplyToData", "G_C17_MatchIff", "G_C02_CookieIff",
   "G_C16_CreateAccepted", "G_C16_AuthAccepted", "G_C03_DialIffAllowed", "G_C03_MalformedNotDialled",
   "G_C16_ChannelTruth", "G_C06_DataForwarded", "G_C06_KeepaliveHarmless", "G_C11_CloseAnswered",
-  "G_C16_CodesTruthful", "G_C16_AcceptedStepContinues"}
+  "G_C16_CodesTruthful", "G_C16_AcceptedStepContinues", "G_C16_PinnedCodes"}
 
 \* Off: guards switched off (used only by the guard-necessity self-test)
 CONSTANT Off
@@ -151,6 +158,7 @@ Holds(g, c, ph, nd, p, o) ==
        [] g = "G_C11_CloseAnswered"       -> G_C11_CloseAnswered(c, ph, nd, p, o)
        [] g = "G_C16_CodesTruthful"       -> G_C16_CodesTruthful(c, ph, nd, p, o)
        [] g = "G_C16_AcceptedStepContinues" -> G_C16_AcceptedStepContinues(c, ph, nd, p, o)
+       [] g = "G_C16_PinnedCodes"         -> G_C16_PinnedCodes(c, ph, nd, p, o)
 
 Violated(c, ph, nd, p, o) == {g \in GuardNames : ~Holds(g, c, ph, nd, p, o)}
 Reactions(c, ph, nd, p)   == {o \in Outcomes : \A g \in GuardNames : Holds(g, c, ph, nd, p, o)}
